@@ -52,16 +52,17 @@ func newC05Driver(name string) *c05Driver {
 }
 
 type c05Snap struct {
-	key    uint64
-	off, n int64
-	data   []byte
-	feed   *cfeed
-	rw     syncer.RdbChannelWriter
-	fed    int64
-	ended  bool // its writer was ended by the harness (cut short / closed)
-	epoch  int
-	allFed bool
-	done   atomic.Bool // its writer has ended (Wait returned)
+	key      uint64
+	off, n   int64
+	data     []byte
+	feed     *cfeed
+	rw       syncer.RdbChannelWriter
+	fed      int64
+	ended    bool // its writer was ended by the harness (cut short / closed)
+	epoch    int
+	allFed   bool
+	done     atomic.Bool // its writer has ended (Wait returned)
+	verified bool        // the offered snapshot was read back once after its writer had ended
 }
 
 type c05Reader struct {
@@ -97,19 +98,20 @@ type c05W struct {
 	cur     string
 	curDir  bool
 
-	logEpoch  int
-	snapEpoch int
-	snap      *c05Snap // latest snapshot of the current directory (nil after a reset that removed it)
-	aw        syncer.AofChannelWriter
-	af        *cfeed
-	awStart   int64
-	right     int64 // next offset to feed
-	floor     int64
-	logHi     int64 // lower bound of what the log writer(s) of this log epoch have completely processed
-	haveLog   bool
-	dataEpoch int // incremented by resets that discard cached bytes
-	awFailed  *atomic.Bool
-	awDone    *atomic.Bool // the log writer has ended (Wait returned)
+	logEpoch   int
+	snapEpoch  int
+	snap       *c05Snap // latest snapshot of the current directory (nil after a reset that removed it)
+	aw         syncer.AofChannelWriter
+	af         *cfeed
+	awStart    int64
+	right      int64 // next offset to feed
+	floor      int64
+	logHi      int64 // lower bound of what the log writer(s) of this log epoch have completely processed
+	haveLog    bool
+	dataEpoch  int // incremented by resets that discard cached bytes
+	diskFaults int
+	awFailed   *atomic.Bool
+	awDone     *atomic.Bool // the log writer has ended (Wait returned)
 
 	readers [3]*c05Reader
 	closed  bool
@@ -394,6 +396,65 @@ func (w *c05W) cutSnap() {
 	}
 }
 
+// closeSnapInFlight: the owner closes the snapshot writer while a chunk is in flight (taken from the source, not in
+// the file yet) — what RedisInput.syncRdb does when its context is cancelled during a full sync. Whether all bytes made
+// it into the cache is the cache's knowledge: if it still offers the snapshot afterwards, a reader must get all of it.
+func (w *c05W) closeSnapInFlight() {
+	s := w.snap
+	rw := s.rw
+	w.op("snapshot writer closed by its owner with a chunk in flight (%d/%d handed)", s.fed, s.n)
+	simrt.Probe("c05_snapshot_closed_in_flight")
+	w.run(w.wr, "RdbChannelWriter.Close()", func() { rw.Close(); rw.Wait(context.Background()) })
+	s.feed.CloseWith(io.EOF)
+	s.rw = nil
+	s.ended = true
+	id := w.cur
+	ro, rn := w.ch.GetRdb(id)
+	if ro != s.off || rn != s.n {
+		return // withdrawn: fine
+	}
+	if !s.allFed {
+		return // observe() reports C05.rdb_offered_incomplete
+	}
+	s.ended = false // every byte had been handed over and the cache says it holds them all: verify by reading
+	w.verifyOffered(s, "the writer was closed with a chunk in flight")
+}
+
+// verifyOffered: the cache offers snapshot s although its writer has ended — then every byte of it must be readable.
+func (w *c05W) verifyOffered(s *c05Snap, when string) {
+	if s.verified || w.viol != nil {
+		return
+	}
+	s.verified = true
+	id := w.cur
+	var rd syncer.ChannelReader
+	var err error
+	// as the tool asks for a cached snapshot: the position in front of it (a log segment may start AT its offset)
+	if !w.run(w.rdr[0], "NewReader(snapshot)", func() { rd, err = w.ch.NewReader(syncer.Offset{RunId: id, Offset: s.off - s.n}) }) {
+		return
+	}
+	if err != nil || rd == nil || rd.IsAof() {
+		w.violate("C05.rdb_offered_short", "snapshot offered after its writer ended, but it cannot be read", "GetRdb(%s) = (%d,%d) after %s, NewReader(%d) err=%v; operations: %s", tailID(id), s.off, s.n, when, s.off, err, w.tail())
+		return
+	}
+	t := newRtap(rd)
+	t.start()
+	for i := 0; i < 4000; i++ {
+		w.r.Settle()
+		if n, _, ended := t.snapshot(); int64(n) >= s.n || ended {
+			break
+		}
+		w.r.Advance(cacheTick)
+	}
+	got := t.bytes()
+	n, terr, _ := t.snapshot()
+	t.close()
+	if int64(n) < s.n || string(got[:s.n]) != string(s.data) {
+		w.violate("C05.rdb_offered_short", "snapshot offered although not all of its bytes are in the cache", "GetRdb(%s) = (%d,%d) after %s, but a reader delivers %d of %d bytes (err=%v): bytes taken from the source never reached the file; operations: %s", tailID(id), s.off, s.n, when, n, s.n, terr, w.tail())
+	}
+	simrt.Probe("c05_offered_snapshot_verified")
+}
+
 func (w *c05W) startLogWriter(off int64, why string) {
 	w.quiesce()
 	old := w.af
@@ -663,6 +724,12 @@ func (w *c05W) observe() {
 			w.violate("C05.rdb_offered_unknown", "snapshot offered that this cache directory was never given", "GetRdb(%s) = (%d,%d); operations: %s", tailID(id), ro, rn, w.tail())
 			return
 		}
+		if s.done.Load() && s.allFed && !s.ended {
+			w.verifyOffered(s, "its writer had ended")
+			if w.viol != nil {
+				return
+			}
+		}
 		if s.ended && !s.allFed {
 			w.violate("C05.rdb_offered_incomplete", "snapshot offered although its writer ended before all bytes arrived",
 				"GetRdb(%s) = (%d,%d) but only %d of %d bytes were ever handed to the cache and the snapshot writer has ended; operations: %s", tailID(id), ro, rn, s.fed, s.n, w.tail())
@@ -805,6 +872,11 @@ func (w *c05W) drain(why string) {
 
 // ---------------------------------------------------------------- run
 
+// c05DiskErrors (SIM_C05_DISKERR=1, exploration only, not part of the registered check): make single writes to the cache
+// directory fail with ENOSPC / EIO. C05 and C08 quantify over operation sequences, interleavings and crash instants, not
+// over failing system calls; the oracle is not relaxed for them.
+var c05DiskErrors = os.Getenv("SIM_C05_DISKERR") == "1"
+
 func runC05(r *Run, stratum string) *Violation {
 	g := r.Gen()
 	w := &c05W{r: r, keyOf: map[string]uint64{}, fed: map[uint64]ivalSet{}, nextKey: 500}
@@ -851,6 +923,13 @@ func runC05(r *Run, stratum string) *Violation {
 			n := cnt[path]
 			mu.Unlock()
 			h := crc64Jones(salt*0x9e3779b97f4a7c15+n, []byte(path))
+			if op == "write" {
+				if h%5 != 0 {
+					return 0
+				}
+				r.W.Fault("slow_write")
+				return cacheTick/2 + time.Duration((h>>8)%3)*cacheTick/2
+			}
 			if h%3 != 0 {
 				return 0
 			}
@@ -898,6 +977,11 @@ func runC05(r *Run, stratum string) *Violation {
 				acts = append(acts, act{"feedsnap", 12, w.feedSnap})
 				acts = append(acts, act{"cutsnap", 1, w.cutSnap})
 			}
+			if snapLive {
+				if fed, consumed, waiting := w.snap.feed.state(); !(waiting && consumed == fed) {
+					acts = append(acts, act{"closesnap-inflight", 3, w.closeSnapInFlight})
+				}
+			}
 			if snapLive && w.snap.allFed && w.aw == nil {
 				acts = append(acts, act{"logaftersnap", 14, func() {
 					w.endSnapWriter("complete")
@@ -936,6 +1020,15 @@ func runC05(r *Run, stratum string) *Violation {
 					simrt.Probe("c05_gc_pass")
 				}})
 				acts = append(acts, act{"gctick", 1, func() { w.op("30 s of virtual time (collector timer)"); r.Advance(30 * time.Second) }})
+				if c05DiskErrors && w.diskFaults < 2 && (w.aw != nil || snapLive) {
+					acts = append(acts, act{"disk-write-error", 1, func() {
+						w.diskFaults++
+						e := []error{simfs.ENOSPC, simfs.EIO}[sc.Choose("diskerr", 2)]
+						w.fs.FailNext("write", e)
+						r.W.Fault("disk_write_error")
+						w.op("the next write to the cache directory fails with %v", e)
+					}})
+				}
 			}
 			acts = append(acts, act{"tick", 3, func() {
 				d := []time.Duration{cacheTick, 3 * cacheTick, 100 * time.Millisecond, time.Second}[sc.Choose("tickd", 4)]
